@@ -160,7 +160,9 @@ class Session(object):
         d = self.r.choice(self.p.get("defaults", ["domain", "domain", "never", "subdomain", "path1"]))
         self.dflt = d
         self.rules_s = self.rules_arg() if self.r.random() < self.p.get("init_rules", 0.4) else "[]"
-        a = self.do("init %s %s %s %s" % (self.backend, d, self.rules_s, self.cfg))
+        # now and then an index constructed with another `encoding=`: text arguments are then encoded with it (the model sees bytes)
+        enc = self.r.choice(["latin-1", "cp1252"]) if self.r.random() < 0.12 else None
+        a = self.do("init %s%s %s %s %s" % (self.backend, ":" + enc if enc else "", d, self.rules_s, self.cfg))
         if self.r.random() < self.p.get("big_ids", 0.04):
             # webentity ids beyond CPython's small-integer cache (> 256): create and delete one webentity over and over
             p = self.space.lru()
